@@ -1,9 +1,11 @@
 import IndicatorVerif.Proofs.Ring
+import IndicatorVerif.Proofs.Bst
 /-
   C17 — ring buffer = bounded FIFO that overwrites its oldest element; search tree = multiset.
   RingBuf part: for every capacity ≥ 1 and every history of put/get/at/isFull/isEmpty the
   observations are those of the list specification `RingBuf.specStep`.
-  (Search-tree part: Props/C17 `bst_*`, see Proofs/Bst.lean.)
+  Search tree: for a lawful order every history of insert/remove/contains/min/max on the model of the pointer
+  algorithm produces the observations of a sorted list (a multiset): `bst_refines_sorted_list`.
 -/
 namespace C17
 
@@ -36,6 +38,93 @@ theorem ring_flags {α : Type} (r : RingBuf α) (h : RingBuf.Inv r) :
 /-! non-vacuity: a concrete history on a concrete ring (capacity 2): put 1, put 2, put 3, get -/
 example : RingBuf.run (RingBuf.new (0 : Nat) 2) [.put 1, .put 2, .put 3, .get, .isFull, .at 0]
     = [.displaced none, .displaced none, .displaced (some 1), .got (some 2), .flag false, .value (some 3)] := by
+  decide
+
+/-! ### search tree -/
+open Bst in
+/-- the abstract specification: a sorted list (a multiset of keys) -/
+def bstSpecStep {α : Type} [LinearOrder α] (zero : α) (sl : List α) : Bst.Op α → List α × Bst.Obs α
+  | .ins x => (sl.orderedInsert (· ≤ ·) x, .unit)
+  | .rem x => (sl.erase x, .flag (decide (x ∈ sl)))
+  | .has x => (sl, .flag (decide (x ∈ sl)))
+  | .min => (sl, .val (sl.head?.getD zero))
+  | .max => (sl, .val (sl.getLast?.getD zero))
+
+def bstSpecRun {α : Type} [LinearOrder α] (zero : α) : List α → List (Bst.Op α) → List (Bst.Obs α)
+  | _, [] => []
+  | sl, op :: ops => let (sl', o) := bstSpecStep zero sl op; o :: bstSpecRun zero sl' ops
+
+/-- one step: the tree stays ordered, its in-order contents follow the sorted-list specification, same observation -/
+theorem bst_step {α : Type} [LinearOrder α] (c : Cmp α) (hc : Bst.Lawful c) (zero : α) (t : BTree α) (op : Bst.Op α)
+    (h : Bst.Ordered t) :
+    Bst.Ordered (Bst.stepOp c zero t op).1 ∧
+    (Bst.stepOp c zero t op).1.toList = (bstSpecStep zero t.toList op).1 ∧
+    (Bst.stepOp c zero t op).2 = (bstSpecStep zero t.toList op).2 := by
+  have hs := (Bst.ordered_iff_sorted t).mp h
+  cases op with
+  | ins x =>
+    have ho := Bst.insert_ordered c hc x t h
+    refine ⟨ho, ?_, rfl⟩
+    exact List.Perm.eq_of_pairwise' ((Bst.ordered_iff_sorted _).mp ho) (hs.orderedInsert x _)
+      ((Bst.insert_perm c x t).trans (List.perm_orderedInsert _ x _).symm)
+  | rem x =>
+    have ho := Bst.remove_ordered c hc x t h
+    obtain ⟨e1, e2⟩ := Bst.remove_spec c hc x t h
+    refine ⟨ho, ?_, by simp [Bst.stepOp, bstSpecStep, e1]⟩
+    exact List.Perm.eq_of_pairwise' ((Bst.ordered_iff_sorted _).mp ho) (hs.sublist (List.erase_sublist)) e2
+  | has x =>
+    refine ⟨h, rfl, ?_⟩
+    simp only [Bst.stepOp, bstSpecStep]
+    congr 1
+    have := Bst.contains_iff c hc x t h
+    by_cases hx : x ∈ t.toList
+    · simp [hx, this.mpr hx]
+    · have : Bst.contains c x t = false := by
+        cases hcnt : Bst.contains c x t with
+        | false => rfl
+        | true => exact absurd (this.mp hcnt) hx
+      simp [hx, this]
+  | min => exact ⟨h, rfl, by simp [Bst.stepOp, bstSpecStep, Bst.minD, Bst.min?_eq_head]⟩
+  | max => exact ⟨h, rfl, by simp [Bst.stepOp, bstSpecStep, Bst.maxD, Bst.max?_eq_getLast]⟩
+
+/-- **every history on the search tree is a history of the sorted-list (multiset) specification** -/
+theorem bst_refines_sorted_list {α : Type} [LinearOrder α] (c : Cmp α) (hc : Bst.Lawful c) (zero : α)
+    (t : BTree α) (h : Bst.Ordered t) (ops : List (Bst.Op α)) :
+    Bst.run c zero t ops = bstSpecRun zero t.toList ops := by
+  induction ops generalizing t with
+  | nil => rfl
+  | cons op ops ih =>
+    obtain ⟨h1, h2, h3⟩ := bst_step c hc zero t op h
+    simp only [Bst.run, bstSpecRun]
+    rw [h3, ih _ h1, h2]
+
+theorem bst_refines_from_empty {α : Type} [LinearOrder α] (c : Cmp α) (hc : Bst.Lawful c) (zero : α) (ops : List (Bst.Op α)) :
+    Bst.run c zero .nil ops = bstSpecRun zero [] ops :=
+  bst_refines_sorted_list c hc zero .nil trivial ops
+
+/-- the specification state is always sorted, and min / max are its least / greatest element -/
+theorem bst_min_is_least {α : Type} [LinearOrder α] (t : BTree α) (h : Bst.Ordered t) (m : α) (hm : Bst.min? t = some m) :
+    m ∈ t.toList ∧ ∀ y ∈ t.toList, m ≤ y := by
+  rw [Bst.min?_eq_head] at hm
+  have hs := (Bst.ordered_iff_sorted t).mp h
+  cases hl : t.toList with
+  | nil => simp [hl] at hm
+  | cons a b =>
+    simp only [hl, List.head?_cons, Option.some.injEq] at hm; subst hm
+    rw [hl] at hs
+    refine ⟨by simp, ?_⟩
+    intro y hy
+    rcases List.mem_cons.mp hy with rfl | hy
+    · exact le_refl _
+    · exact (List.pairwise_cons.mp hs).1 y hy
+
+/-- Go's integer comparisons are lawful -/
+theorem intCmp_lawful : Bst.Lawful Bst.intCmp :=
+  ⟨fun a b => by simp [Bst.intCmp], fun a b => by simp [Bst.intCmp], fun a b => by simp [Bst.intCmp]⟩
+
+/-! non-vacuity: a concrete history with duplicates and removals -/
+example : Bst.run Bst.intCmp 0 .nil [.ins 5, .ins 3, .ins 5, .has 3, .rem 5, .has 5, .min, .max, .rem 9, .rem 5, .has 5]
+    = [.unit, .unit, .unit, .flag true, .flag true, .flag true, .val 3, .val 5, .flag false, .flag true, .flag false] := by
   decide
 
 end C17
